@@ -132,7 +132,7 @@ class TypedSymbol(Symbol, metaclass=abc.ABCMeta):
         # The constructors for all Symbol-based classes have 'name' as the
         # first positional argument.
         return type(self)(self.name, self.datatype, visibility=self.visibility,
-                          interface=self.interface)
+                          interface=self.interface.copy())
 
     def copy_properties(self, symbol_in):
         '''Replace all properties in this object with the properties from
